@@ -6,6 +6,7 @@ import (
 	"flag"
 	"fmt"
 	"log"
+	"math"
 	"net/http"
 	"regexp"
 	"runtime"
@@ -410,6 +411,17 @@ func load(cmdline, environ, envprefix []string, props *properties.Properties) (c
 	cfg.BGP.Peers, err = parseBGPPeers(bgpPeersValue)
 	if err != nil {
 		return nil, err
+	}
+
+	// NaN and the infinities parse as floats but cannot be used
+	// and cannot be written as JSON (start-up log, /api/config)
+	if math.IsNaN(cfg.Tracing.SamplerRate) || math.IsInf(cfg.Tracing.SamplerRate, 0) {
+		return nil, fmt.Errorf("tracing.SamplerRate must be a finite number")
+	}
+	for _, b := range cfg.Metrics.Prometheus.Buckets {
+		if math.IsNaN(b) || math.IsInf(b, 0) {
+			return nil, fmt.Errorf("metrics.prometheus.buckets must be finite numbers")
+		}
 	}
 
 	return cfg, nil
